@@ -68,29 +68,43 @@ Proof.
 Qed.
 
 (* ---------- unfolding equations (the Section-parametrised mutual fixpoints do not refold under cbn) ---------- *)
-Lemma round_dc_eq sa es argv p c l s :
-  round_dc sa es argv p (Dc c l s) = match round_sg sa es argv p s with Ok s' => Ok (Dc c l s') | Err e => Err e end.
+Lemma round_dc_eq sa va es argv p c l s :
+  round_dc sa va es argv p (Dc c l s) = match round_sg sa va es argv p s with Ok s' => Ok (Dc c l s') | Err e => Err e end.
 Proof. reflexivity. Qed.
-Lemma round_sg_nil sa es argv p : round_sg sa es argv p SNil = Ok SNil.
+Lemma round_sg_nil sa va es argv p : round_sg sa va es argv p SNil = Ok SNil.
 Proof. reflexivity. Qed.
-Lemma round_sg_un sa es argv p f dflt t r :
-  round_sg sa es argv p (SUn f dflt t r) =
-  match pick dflt (keys t) (given sa es argv (snoc p f)) with
+Lemma round_sg_un sa va es argv p f dflt t r :
+  round_sg sa va es argv p (SUn f dflt t r) =
+  match pick_v va dflt (keys t) (given sa es argv (snoc p f)) with
   | Err e => Err e
   | Ok k => match find_alt k t with
             | None => Err (Raise "AssertionError")
-            | Some (src, n) => match round_sg sa es argv p r with
+            | Some (src, n) => match round_sg sa va es argv p r with
                                | Ok r' => Ok (SRe f dflt t k src n r')
                                | Err e => Err e
                                end
             end
   end.
 Proof. reflexivity. Qed.
-Lemma round_sg_re sa es argv p f dflt t k src n r :
-  round_sg sa es argv p (SRe f dflt t k src n r) =
-  match round_dc sa es argv (snoc p f) n with
+(* with choices=keys in the argument options *)
+Lemma round_sg_un_t sa es argv p f dflt t r :
+  round_sg sa true es argv p (SUn f dflt t r) =
+  match pick dflt (keys t) (given sa es argv (snoc p f)) with
   | Err e => Err e
-  | Ok n' => match round_sg sa es argv p r with
+  | Ok k => match find_alt k t with
+            | None => Err (Raise "AssertionError")
+            | Some (src, n) => match round_sg sa true es argv p r with
+                               | Ok r' => Ok (SRe f dflt t k src n r')
+                               | Err e => Err e
+                               end
+            end
+  end.
+Proof. reflexivity. Qed.
+Lemma round_sg_re sa va es argv p f dflt t k src n r :
+  round_sg sa va es argv p (SRe f dflt t k src n r) =
+  match round_dc sa va es argv (snoc p f) n with
+  | Err e => Err e
+  | Ok n' => match round_sg sa va es argv p r with
              | Ok r' => Ok (SRe f dflt t k src n' r')
              | Err e => Err e
              end
@@ -118,53 +132,53 @@ Lemma value_sg_re ma pk idf es argv p f dflt t k src n r :
 Proof. reflexivity. Qed.
 
 Section Rounds.
-  Variables (sa idf pw : bool).      (* sub_abbrev, inst_default, preset_wins: irrelevant for termination *)
+  Variables (sa idf pw va sees : bool).      (* sub_abbrev, inst_default, preset_wins: irrelevant for termination *)
 
   Lemma round_depth es argv :
-    (forall d p d', round_dc sa es argv p d = Ok d' -> depth_dc d' <= Nat.pred (depth_dc d))
-    /\ (forall s p s', round_sg sa es argv p s = Ok s' -> depth_sg s' <= Nat.pred (depth_sg s))
+    (forall d p d', round_dc sa va es argv p d = Ok d' -> depth_dc d' <= Nat.pred (depth_dc d))
+    /\ (forall s p s', round_sg sa va es argv p s = Ok s' -> depth_sg s' <= Nat.pred (depth_sg s))
     /\ (forall t : alts, True).
   Proof.
     apply dc_sgfs_alts_ind; try (intros; exact I).
-    - intros c l s IH p d' H. rewrite round_dc_eq in H. destruct (round_sg sa es argv p s) as [s'|e] eqn:E; [|discriminate].
+    - intros c l s IH p d' H. rewrite round_dc_eq in H. destruct (round_sg sa va es argv p s) as [s'|e] eqn:E; [|discriminate].
       injection H as <-. cbn. apply (IH p). exact E.
     - intros p s' H. rewrite round_sg_nil in H. injection H as <-. cbn. lia.
     - intros f dflt t _ r IHr p s' H. rewrite round_sg_un in H.
-      destruct (pick dflt (keys t) _) as [k|e]; [|discriminate].
+      destruct (pick_v va dflt (keys t) _) as [k|e]; [|discriminate].
       destruct (find_alt k t) as [[src n]|] eqn:F; [|discriminate].
-      destruct (round_sg sa es argv p r) as [r'|e] eqn:E; [|discriminate].
+      destruct (round_sg sa va es argv p r) as [r'|e] eqn:E; [|discriminate].
       injection H as <-. cbn [depth_sg]. apply find_alt_depth in F. apply IHr in E.
       rewrite pred_max. cbn [Nat.pred]. lia.
     - intros f dflt t _ k src n IHn r IHr p s' H. rewrite round_sg_re in H.
-      destruct (round_dc sa es argv (snoc p f) n) as [n'|e] eqn:En; [|discriminate].
-      destruct (round_sg sa es argv p r) as [r'|e] eqn:E; [|discriminate].
+      destruct (round_dc sa va es argv (snoc p f) n) as [n'|e] eqn:En; [|discriminate].
+      destruct (round_sg sa va es argv p r) as [r'|e] eqn:E; [|discriminate].
       injection H as <-. cbn [depth_sg]. apply IHn in En. apply IHr in E. rewrite pred_max. lia.
   Qed.
 
   (* a round never runs out of fuel: it ends with a value, an argparse error or the round's own assertion *)
   Lemma round_err es argv :
-    (forall d p e, round_dc sa es argv p d = Err e -> e = Exit 2 \/ e = Raise "AssertionError")
-    /\ (forall s p e, round_sg sa es argv p s = Err e -> e = Exit 2 \/ e = Raise "AssertionError")
+    (forall d p e, round_dc sa va es argv p d = Err e -> e = Exit 2 \/ e = Raise "AssertionError")
+    /\ (forall s p e, round_sg sa va es argv p s = Err e -> e = Exit 2 \/ e = Raise "AssertionError")
     /\ (forall t : alts, True).
   Proof.
     apply dc_sgfs_alts_ind; try (intros; exact I).
-    - intros c l s IH p e H. rewrite round_dc_eq in H. destruct (round_sg sa es argv p s) eqn:E; [discriminate|].
+    - intros c l s IH p e H. rewrite round_dc_eq in H. destruct (round_sg sa va es argv p s) eqn:E; [discriminate|].
       injection H as <-. eapply IH. exact E.
     - intros p e H. discriminate.
     - intros f dflt t _ r IHr p e H. rewrite round_sg_un in H.
-      destruct (pick dflt (keys t) _) as [k|e'] eqn:P.
+      destruct (pick_v va dflt (keys t) _) as [k|e'] eqn:P.
       + destruct (find_alt k t) as [[src n]|]; [|injection H as <-; now right].
-        destruct (round_sg sa es argv p r) eqn:E; [discriminate|]. injection H as <-. eapply IHr. exact E.
-      + injection H as <-. unfold pick in P.
-        destruct (forallb _ _); [|injection P as <-; now left].
+        destruct (round_sg sa va es argv p r) eqn:E; [discriminate|]. injection H as <-. eapply IHr. exact E.
+      + injection H as <-. unfold pick_v in P.
+        destruct (negb va || forallb _ _); [|injection P as <-; now left].
         destruct (last_opt _); [discriminate|]. destruct dflt; [discriminate|]. injection P as <-. now left.
     - intros f dflt t _ k src n IHn r IHr p e H. rewrite round_sg_re in H.
-      destruct (round_dc sa es argv (snoc p f) n) eqn:En.
-      + destruct (round_sg sa es argv p r) eqn:E; [discriminate|]. injection H as <-. eapply IHr. exact E.
+      destruct (round_dc sa va es argv (snoc p f) n) eqn:En.
+      + destruct (round_sg sa va es argv p r) eqn:E; [discriminate|]. injection H as <-. eapply IHr. exact E.
       + injection H as <-. eapply IHn. exact En.
   Qed.
 
-  Lemma round_not_oof tb argv root d e : round sa idf pw tb argv root d = Err e -> e <> OutOfFuel.
+  Lemma round_not_oof tb argv root d e : round sa idf pw va tb argv root d = Err e -> e <> OutOfFuel.
   Proof.
     unfold round. destruct (asserts_dc idf pw false d).
     - intros H. apply (proj1 (round_err _ argv)) in H. destruct H; subst; discriminate.
@@ -172,7 +186,7 @@ Section Rounds.
   Qed.
 
   Lemma round_measure tb argv root d d' :
-    round sa idf pw tb argv root d = Ok d' -> depth_dc d' <= Nat.pred (depth_dc d).
+    round sa idf pw va tb argv root d = Ok d' -> depth_dc d' <= Nat.pred (depth_dc d).
   Proof.
     unfold round. destruct (asserts_dc idf pw false d); [|discriminate].
     apply (proj1 (round_depth _ argv)).
@@ -181,23 +195,23 @@ Section Rounds.
   (* with the loop's `break`: (nesting depth) rounds are enough, whatever is on the command line *)
   Lemma loop_indep tb argv root : forall f1 f2 d,
     unres_dc d = true -> depth_dc d <= f1 -> depth_dc d <= f2 ->
-    loop sa idf pw true f1 tb argv root d = loop sa idf pw true f2 tb argv root d.
+    loop sa idf pw true va f1 tb argv root d = loop sa idf pw true va f2 tb argv root d.
   Proof.
     induction f1 as [|a IH]; intros f2 d U L1 L2.
     - apply unres_pos in U. lia.
     - destruct f2 as [|b]; [apply unres_pos in U; lia|].
-      cbn [loop]. destruct (round sa idf pw tb argv root d) as [d'|e] eqn:R; [|reflexivity].
+      cbn [loop]. destruct (round sa idf pw va tb argv root d) as [d'|e] eqn:R; [|reflexivity].
       pose proof (round_measure _ _ _ _ _ R) as M.
       cbn [andb]. destruct (unres_dc d') eqn:U'; cbn [negb]; [|reflexivity].
       apply IH; [exact U' | lia | lia].
   Qed.
 
   Lemma loop_not_oof tb argv root : forall fuel d,
-    unres_dc d = true -> depth_dc d <= fuel -> loop sa idf pw true fuel tb argv root d <> Err OutOfFuel.
+    unres_dc d = true -> depth_dc d <= fuel -> loop sa idf pw true va fuel tb argv root d <> Err OutOfFuel.
   Proof.
     induction fuel as [|k IH]; intros d U L.
     - apply unres_pos in U. lia.
-    - cbn [loop]. destruct (round sa idf pw tb argv root d) as [d'|e] eqn:R.
+    - cbn [loop]. destruct (round sa idf pw va tb argv root d) as [d'|e] eqn:R.
       + pose proof (round_measure _ _ _ _ _ R) as M.
         cbn [andb]. destruct (unres_dc d') eqn:U'; cbn [negb]; [|discriminate].
         apply IH; [exact U' | lia].
@@ -206,8 +220,8 @@ Section Rounds.
 
   Lemma resolve_fuel tb argv root fuel d :
     depth_dc d <= fuel ->
-    resolve sa idf pw true fuel tb argv root d <> Err OutOfFuel
-    /\ resolve sa idf pw true fuel tb argv root d = resolve sa idf pw true (depth_dc d) tb argv root d.
+    resolve sa idf pw true va sees fuel tb argv root d <> Err OutOfFuel
+    /\ resolve sa idf pw true va sees fuel tb argv root d = resolve sa idf pw true va sees (depth_dc d) tb argv root d.
   Proof.
     intros L. unfold resolve. destruct (unres_dc d) eqn:U; cbn [negb].
     - split; [apply loop_not_oof; assumption | apply loop_indep; [exact U | exact L | lia]].
@@ -337,20 +351,30 @@ Proof.
 Qed.
 
 (* ---------- keys ---------- *)
+Lemma pick_unfold dflt ks g :
+  pick dflt ks g =
+  if forallb (fun k => str_in k ks) g then
+    match last_opt g with
+    | Some k => Ok k
+    | None => match dflt with Some k => Ok k | None => Err (Exit 2) end
+    end
+  else Err (Exit 2).
+Proof. reflexivity. Qed.
+
 Lemma pick_spec_key dflt ks g k : pick dflt ks g = Ok k -> spec_key dflt ks g = Some k.
 Proof.
-  unfold pick, spec_key. destruct (forallb _ g); [|discriminate].
+  rewrite pick_unfold. unfold spec_key. destruct (forallb _ g); [|discriminate].
   destruct (last_opt g); [intros H; now injection H as <-|]. destruct dflt; [intros H; now injection H as <-|discriminate].
 Qed.
 
 Lemma pick_err dflt ks g e : pick dflt ks g = Err e -> spec_key dflt ks g = None /\ e = Exit 2.
 Proof.
-  unfold pick, spec_key. destruct (forallb _ g); [|intros H; now injection H as <-].
+  rewrite pick_unfold. unfold spec_key. destruct (forallb _ g); [|intros H; now injection H as <-].
   destruct (last_opt g); [discriminate|]. destruct dflt; [discriminate|]. intros H; now injection H as <-.
 Qed.
 
 Lemma pick_valid dflt ks g k : pick dflt ks g = Ok k -> forallb (fun x => str_in x ks) g = true.
-Proof. unfold pick. destruct (forallb _ g); [reflexivity | discriminate]. Qed.
+Proof. rewrite pick_unfold. destruct (forallb _ g); [reflexivity | discriminate]. Qed.
 
 Lemma last_opt_in {A} (l : list A) x : last_opt l = Some x -> In x l.
 Proof.
@@ -359,13 +383,13 @@ Qed.
 
 Lemma pick_last dflt ks g k v : pick dflt ks g = Ok k -> last_opt g = Some v -> v = k.
 Proof.
-  unfold pick. destruct (forallb _ g); [|discriminate]. intros H L. rewrite L in H. now injection H.
+  rewrite pick_unfold. destruct (forallb _ g); [|discriminate]. intros H L. rewrite L in H. now injection H.
 Qed.
 
 Lemma pick_in_keys dflt ks g k :
   match dflt with Some d => str_in d ks | None => true end = true -> pick dflt ks g = Ok k -> str_in k ks = true.
 Proof.
-  intros W H. pose proof (pick_valid _ _ _ _ H) as V. unfold pick in H. rewrite V in H.
+  intros W H. pose proof (pick_valid _ _ _ _ H) as V. rewrite pick_unfold in H. rewrite V in H.
   destruct (last_opt g) eqn:L.
   - injection H as <-. apply last_opt_in in L. rewrite forallb_forall in V. now apply V.
   - destruct dflt; [injection H as <-; exact W | discriminate].
@@ -473,24 +497,24 @@ Proof.
 Qed.
 
 (* ... and the shape stays crash-free *)
-Lemma round_crash sa es argv :
-  (forall d p b d', crash_free_dc b d = true -> round_dc sa es argv p d = Ok d' -> crash_free_dc b d' = true)
-  /\ (forall s p b s', crash_free_sg b s = true -> round_sg sa es argv p s = Ok s' -> crash_free_sg b s' = true)
+Lemma round_crash sa va es argv :
+  (forall d p b d', crash_free_dc b d = true -> round_dc sa va es argv p d = Ok d' -> crash_free_dc b d' = true)
+  /\ (forall s p b s', crash_free_sg b s = true -> round_sg sa va es argv p s = Ok s' -> crash_free_sg b s' = true)
   /\ (forall t : alts, True).
 Proof.
   apply dc_sgfs_alts_ind; try (intros; exact I).
   - intros c l s IH p b d' C R. rewrite round_dc_eq in R.
-    destruct (round_sg sa es argv p s) as [s'|e] eqn:E; [|discriminate]. injection R as <-. exact (IH p b s' C E).
+    destruct (round_sg sa va es argv p s) as [s'|e] eqn:E; [|discriminate]. injection R as <-. exact (IH p b s' C E).
   - intros p b s' _ R. rewrite round_sg_nil in R. now injection R as <-.
   - intros f dflt t _ r IHr p b s' C R. rewrite round_sg_un in R.
-    destruct (pick dflt (keys t) _) as [k|e]; [|discriminate].
+    destruct (pick_v va dflt (keys t) _) as [k|e]; [|discriminate].
     destruct (find_alt k t) as [[src n]|] eqn:F; [|discriminate].
-    destruct (round_sg sa es argv p r) as [r'|e] eqn:E; [|discriminate]. injection R as <-.
+    destruct (round_sg sa va es argv p r) as [r'|e] eqn:E; [|discriminate]. injection R as <-.
     cbn [crash_free_sg] in *. apply andb_true_iff in C as [C12 C3]. apply andb_true_iff in C12 as [C1 C2].
     now rewrite C2, (find_alt_crash _ _ _ _ C2 F), (IHr p b r' C3 E).
   - intros f dflt t _ k src n IHn r IHr p b s' C R. rewrite round_sg_re in R.
-    destruct (round_dc sa es argv (snoc p f) n) as [n'|e] eqn:En; [|discriminate].
-    destruct (round_sg sa es argv p r) as [r'|e] eqn:E; [|discriminate]. injection R as <-.
+    destruct (round_dc sa va es argv (snoc p f) n) as [n'|e] eqn:En; [|discriminate].
+    destruct (round_sg sa va es argv p r) as [r'|e] eqn:E; [|discriminate]. injection R as <-.
     cbn [crash_free_sg] in *. apply andb_true_iff in C as [C12 C3]. apply andb_true_iff in C12 as [C1 C2].
     now rewrite C1, (IHn _ _ n' C2 En), (IHr p b r' C3 E).
 Qed.
@@ -529,24 +553,24 @@ Section Preserve.
   Lemma round_ok :
     (forall d p d',
         (forall q, In q (map i_path (sg_info_dc p d)) -> given false es argv q = xg q) ->
-        good_dc d = true -> inv_dc xg p d -> round_dc false es argv p d = Ok d' ->
+        good_dc d = true -> inv_dc xg p d -> round_dc false true es argv p d = Ok d' ->
         good_dc d' = true /\ inv_dc xg p d' /\ erase_dc d' = erase_dc d)
     /\ (forall s p s',
         (forall q, In q (map i_path (sg_info p s)) -> given false es argv q = xg q) ->
-        good_sg s = true -> inv_sg xg p s -> round_sg false es argv p s = Ok s' ->
+        good_sg s = true -> inv_sg xg p s -> round_sg false true es argv p s = Ok s' ->
         good_sg s' = true /\ inv_sg xg p s' /\ erase_sg s' = erase_sg s)
     /\ (forall t : alts, True).
   Proof.
     apply dc_sgfs_alts_ind; try (intros; exact I).
     - intros c l s IH p d' Hg G I R. rewrite round_dc_eq in R.
-      destruct (round_sg false es argv p s) as [s'|e] eqn:E; [|discriminate]. injection R as <-.
+      destruct (round_sg false true es argv p s) as [s'|e] eqn:E; [|discriminate]. injection R as <-.
       destruct (IH p s' Hg G I E) as [G' [I' E']]. repeat split; [exact G' | exact I' | cbn; now rewrite E'].
     - intros p s' _ _ _ R. rewrite round_sg_nil in R. injection R as <-. repeat split.
-    - intros f dflt t _ r IHr p s' Hg G I R. rewrite round_sg_un in R.
+    - intros f dflt t _ r IHr p s' Hg G I R. rewrite round_sg_un_t in R.
       cbn [sg_info map i_path] in Hg. rewrite (Hg (snoc p f)) in R by now left.
       destruct (pick dflt (keys t) (xg (snoc p f))) as [k|e] eqn:P; [|discriminate].
       destruct (find_alt k t) as [[src n]|] eqn:F; [|discriminate].
-      destruct (round_sg false es argv p r) as [r'|e] eqn:E; [|discriminate]. injection R as <-.
+      destruct (round_sg false true es argv p r) as [r'|e] eqn:E; [|discriminate]. injection R as <-.
       cbn [good_sg] in G.
       apply andb_true_iff in G as [G12 G3]. apply andb_true_iff in G12 as [G1 G2].
       destruct (find_alt_good _ _ _ _ G2 F) as [Dn Gn].
@@ -561,8 +585,8 @@ Section Preserve.
       + cbn. now rewrite E'.
     - intros f dflt t _ k src n IHn r IHr p s' Hg G I R. rewrite round_sg_re in R.
       cbn [sg_info map i_path] in Hg. rewrite map_app in Hg.
-      destruct (round_dc false es argv (snoc p f) n) as [n'|e] eqn:En; [|discriminate].
-      destruct (round_sg false es argv p r) as [r'|e] eqn:E; [|discriminate]. injection R as <-.
+      destruct (round_dc false true es argv (snoc p f) n) as [n'|e] eqn:En; [|discriminate].
+      destruct (round_sg false true es argv p r) as [r'|e] eqn:E; [|discriminate]. injection R as <-.
       cbn [good_sg] in G.
       apply andb_true_iff in G as [G123 G4]. apply andb_true_iff in G123 as [G12 G3]. apply andb_true_iff in G12 as [G1 G2].
       cbn [inv_sg] in I. destruct I as [P [F [In Ir]]].
@@ -604,21 +628,21 @@ Section Fail.
   Lemma round_fail :
     (forall d p e src,
         (forall q, In q (map i_path (sg_info_dc p d)) -> given false es argv q = xg q) ->
-        good_dc d = true -> inv_dc xg p d -> round_dc false es argv p d = Err e ->
+        good_dc d = true -> inv_dc xg p d -> round_dc false true es argv p d = Err e ->
         e = Exit 2 /\ sp_dc its p src d = None)
     /\ (forall s p e inst,
         (forall q, In q (map i_path (sg_info p s)) -> given false es argv q = xg q) ->
-        good_sg s = true -> inv_sg xg p s -> round_sg false es argv p s = Err e ->
+        good_sg s = true -> inv_sg xg p s -> round_sg false true es argv p s = Err e ->
         e = Exit 2 /\ sp_sg its p inst s = None)
     /\ (forall t : alts, True).
   Proof.
     apply dc_sgfs_alts_ind; try (intros; exact I).
     - intros c l s IH p e src Hg G I R. rewrite round_dc_eq in R.
-      destruct (round_sg false es argv p s) as [s'|e'] eqn:E; [discriminate|]. injection R as <-.
+      destruct (round_sg false true es argv p s) as [s'|e'] eqn:E; [discriminate|]. injection R as <-.
       destruct (IH p e' (src_is_inst src) Hg G I E) as [E1 E2]. split; [exact E1|].
       cbn [sp_dc]. now rewrite E2.
     - intros p e inst _ _ _ R. discriminate.
-    - intros f dflt t _ r IHr p e inst Hg G I R. rewrite round_sg_un in R.
+    - intros f dflt t _ r IHr p e inst Hg G I R. rewrite round_sg_un_t in R.
       cbn [sg_info map i_path] in Hg. rewrite (Hg (snoc p f)) in R by now left.
       cbn [good_sg] in G.
       apply andb_true_iff in G as [G12 G4]. apply andb_true_iff in G12 as [G2 G3].
@@ -626,7 +650,7 @@ Section Fail.
       destruct (pick dflt (keys t) (xg (snoc p f))) as [k|e'] eqn:P.
       + pose proof (pick_in_keys _ _ _ _ G2 P) as K. apply find_alt_keys in K.
         destruct (find_alt k t) as [[src n]|] eqn:F; [|congruence].
-        destruct (round_sg false es argv p r) as [r'|e'] eqn:E; [discriminate|]. injection R as <-.
+        destruct (round_sg false true es argv p r) as [r'|e'] eqn:E; [discriminate|]. injection R as <-.
         destruct (IHr p e' inst (fun q Hq => Hg q (or_intror Hq)) G4 I E) as [E1 E2]. split; [exact E1|].
         rewrite E2. destruct (spec_key _ _ _); [|reflexivity]. destruct (sp_alts _ _ _ _) as [[[[? ?] ?] ?]|]; reflexivity.
       + injection R as <-. destruct (pick_err _ _ _ _ P) as [S ->]. split; [reflexivity|]. now rewrite S.
@@ -636,8 +660,8 @@ Section Fail.
       apply andb_true_iff in G as [G123 G4]. apply andb_true_iff in G123 as [G12 G3]. apply andb_true_iff in G12 as [G1 G2].
       cbn [inv_sg] in I. destruct I as [P [F [In Ir]]].
       cbn [sp_sg]. rewrite Hi, (pick_spec_key _ _ _ _ P), (sp_alts_find _ _ _ _ _ _ F), sp_dc_erase.
-      destruct (round_dc false es argv (snoc p f) n) as [n'|e'] eqn:En.
-      + destruct (round_sg false es argv p r) as [r'|e''] eqn:E; [discriminate|]. injection R as <-.
+      destruct (round_dc false true es argv (snoc p f) n) as [n'|e'] eqn:En.
+      + destruct (round_sg false true es argv p r) as [r'|e''] eqn:E; [discriminate|]. injection R as <-.
         destruct (IHr p e'' inst (fun q Hq => Hg q (or_intror (in_or_app _ _ _ (or_intror Hq)))) G4 Ir E) as [E1 E2].
         split; [exact E1|]. rewrite E2. destruct (sp_dc _ _ _ _) as [[[[? ?] ?] ?]|]; reflexivity.
       + injection R as <-.
@@ -838,7 +862,7 @@ Section Loop.
      specification rejects the command line as well; or the round's own assertion, on a shape that is not crash-free *)
   Lemma round_step d :
     good_dc d = true -> inv_dc xg root d ->
-    match round false idf pw tb argv root d with
+    match round false idf pw true tb argv root d with
     | Ok d' => good_dc d' = true /\ inv_dc xg root d' /\ erase_dc d' = erase_dc d
                /\ (crash_free_dc false d = true -> crash_free_dc false d' = true)
     | Err e => (e = Exit 2 /\ sp_dc its root SType d = None)
@@ -850,9 +874,9 @@ Section Loop.
     - set (es := restrict tb (map i_path (sg_info_dc root d))).
       assert (Hg : forall q, In q (map i_path (sg_info_dc root d)) -> given false es argv q = xg q).
       { intros q Hq. apply sg_paths_in; assumption. }
-      destruct (round_dc false es argv root d) as [d'|e] eqn:R.
+      destruct (round_dc false true es argv root d) as [d'|e] eqn:R.
       + destruct (proj1 (round_ok tb argv es) d root d' Hg G I R) as [G' [I' E']].
-        repeat split; try assumption. intros C. exact (proj1 (round_crash false es argv) d root false d' C R).
+        repeat split; try assumption. intros C. exact (proj1 (round_crash false true es argv) d root false d' C R).
       + left. exact (proj1 (round_fail tb argv its (igiven_intents tb argv) es) d root e SType Hg G I R).
     - right. split; [reflexivity|]. split.
       + destruct (crash_free_dc false d) eqn:C; [|reflexivity].
@@ -862,7 +886,7 @@ Section Loop.
 
   Lemma loop_ok : forall fuel d,
     good_dc d = true -> inv_dc xg root d ->
-    match loop false idf pw true fuel tb argv root d with
+    match loop false idf pw true true fuel tb argv root d with
     | Ok r => good_dc r = true /\ inv_dc xg root r /\ erase_dc r = erase_dc d /\ unres_dc r = false
     | Err e => e = OutOfFuel \/ (e = Exit 2 /\ sp_dc its root SType d = None)
                \/ (e = Raise "AssertionError" /\ crash_free_dc false d = false /\ pw = true)
@@ -870,9 +894,9 @@ Section Loop.
   Proof.
     induction fuel as [|k IH]; intros d G I; [now left|].
     cbn [loop]. pose proof (round_step d G I) as S.
-    destruct (round false idf pw tb argv root d) as [d'|e].
+    destruct (round false idf pw true tb argv root d) as [d'|e].
     - destruct S as [G' [I' [E' C']]]. cbn [andb]. destruct (unres_dc d') eqn:U; cbn [negb].
-      + specialize (IH d' G' I'). destruct (loop false idf pw true k tb argv root d') as [r|e].
+      + specialize (IH d' G' I'). destruct (loop false idf pw true true k tb argv root d') as [r|e].
         * destruct IH as [A [B [C D]]]. repeat split; try assumption. congruence.
         * destruct IH as [->|[[-> N]|[-> [N P]]]]; [now left| |].
           -- right. left. split; [reflexivity|].
@@ -885,7 +909,7 @@ Section Loop.
 
   Lemma resolve_ok fuel d :
     good_dc d = true -> inv_dc xg root d ->
-    match resolve false idf pw true fuel tb argv root d with
+    match resolve false idf pw true true true fuel tb argv root d with
     | Ok r => good_dc r = true /\ inv_dc xg root r /\ erase_dc r = erase_dc d /\ unres_dc r = false
     | Err e => e = OutOfFuel \/ (e = Exit 2 /\ sp_dc its root SType d = None)
                \/ (e = Raise "AssertionError" /\ crash_free_dc false d = false /\ pw = true)
@@ -918,6 +942,11 @@ Proof.
 Qed.
 
 (* ---------- the theorems, about the model instantiated with the regenerated facts ---------- *)
+(* the main parser knows the subgroup options as well as the leaves *)
+Lemma registered_gen_eq root r :
+  registered_gen root r = (map i_path (sg_info_dc root r) ++ leaf_paths_dc root r)%list.
+Proof. reflexivity. Qed.
+
 Section Main.
   Variables (tb : optab) (argv : list tok) (root : path) (d : dc) (fuel : nat).
   Hypothesis D : declared_dc d = true.
@@ -936,9 +965,10 @@ Section Main.
     pose proof (proj1 good_of_hyps d D W) as G.
     destruct (proj1 (declared_facts xg) d D) as [Ed I].
     pose proof (resolve_ok inst_default_gen preset_wins_gen tb argv root ND fuel d G (I root)) as R.
-    pose proof (proj1 (resolve_fuel false inst_default_gen preset_wins_gen tb argv root fuel d L)) as NF.
+    pose proof (proj1 (resolve_fuel false inst_default_gen preset_wins_gen true true tb argv root fuel d L)) as NF.
     unfold resolve_gen. change sub_abbrev_gen with false. change loop_breaks_gen with true.
-    destruct (resolve false inst_default_gen preset_wins_gen true fuel tb argv root d) as [r|e].
+    change validates_gen with true. change setup_sees_argv_gen with true.
+    destruct (resolve false inst_default_gen preset_wins_gen true true true fuel tb argv root d) as [r|e].
     - rewrite Ed in R. exact R.
     - destruct R as [->|[R|[_ [_ P]]]]; [congruence | exact R |].
       (* preset_wins_gen is false since DataclassWrapper no longer pushes a default instance's attribute into a subgroup
@@ -961,7 +991,7 @@ Section Main.
 
   (* what a completed parse computes (C07_value, C07_namespace) *)
   Lemma final_spec r :
-    plain_for tb (registered root r) argv = true ->
+    plain_for tb (registered_gen root r) argv = true ->
     resolve_gen fuel tb argv root d = Ok r ->
     exists v soft,
       sp_dc its root SType d = Some (v, chosen_of (sg_info_dc root r), leaf_paths_dc root r, soft)
@@ -971,24 +1001,26 @@ Section Main.
   Proof.
     intros PL R. pose proof resolve_gen_cases as C. rewrite R in C. destruct C as [G [I [E U]]].
     set (info := sg_info_dc root r). set (lp := leaf_paths_dc root r).
-    set (es := restrict tb (registered root r)).
-    assert (Hreg : forall q, In q (registered root r) -> given main_abbrev_gen es argv q = xg q).
+    set (es := restrict tb (registered_gen root r)).
+    assert (Hreg : forall q, In q (registered_gen root r) -> given main_abbrev_gen es argv q = xg q).
     { intros q Hq. apply given_main; [exact ND | exact PL | now apply path_in_In]. }
     destruct (proj1 (resolved_value tb argv its main_abbrev_gen es (igiven_intents tb argv)) r root SType U I)
       as [soft Es].
-    { intros q Hq. apply Hreg. unfold registered. apply in_or_app. now right. }
+    { intros q Hq. apply Hreg. rewrite registered_gen_eq. apply in_or_app. now right. }
     exists (value_dc main_abbrev_gen true true es argv root SType r), soft. split.
     - rewrite <- E at 1. rewrite sp_dc_erase. exact Es.
     - pose proof (proj1 resolved_keys r root U) as Hk.
       pose proof (proj1 (inv_info tb argv) r root I) as Hp.
-      unfold final_gen, final. fold info. fold es. fold lp.
+      unfold final_gen, final. fold (registered_gen root r). fold info. fold es. fold lp.
       assert (T : forallb (tok_ok main_abbrev_gen es info) argv = forallb (intent_ok (chosen_of info) lp) its).
-      { unfold es, registered. fold info. fold lp. apply toks_agree; assumption. }
+      { unfold es. rewrite registered_gen_eq. fold info. fold lp. apply toks_agree; [assumption | | assumption | assumption].
+        unfold info, lp. rewrite <- registered_gen_eq. exact PL. }
       rewrite T. destruct (forallb (intent_ok (chosen_of info) lp) its); [|reflexivity].
+      change instantiates_bottom_up_gen with true. cbn [orb].
       assert (Rp : report main_abbrev_gen report_ns_gen es argv info = chosen_of info).
       { change report_ns_gen with true. apply (report_chosen main_abbrev_gen es tb argv info).
         - exact Hp.
-        - intros i Hi. apply Hreg. unfold registered. apply in_or_app. left. now apply in_map. }
+        - intros i Hi. apply Hreg. rewrite registered_gen_eq. apply in_or_app. left. now apply in_map. }
       now rewrite Rp.
   Qed.
 
@@ -1006,7 +1038,7 @@ Section Main.
   (* no written option is read as an abbreviation by the main parser (vacuous when the set-up does not complete) *)
   Definition no_abbrev : bool :=
     match resolve_gen fuel tb argv root d with
-    | Ok r => plain_for tb (registered root r) argv
+    | Ok r => plain_for tb (registered_gen root r) argv
     | Err _ => true
     end.
 
@@ -1035,7 +1067,7 @@ Section Main.
   Qed.
 
   Theorem value_namespace r v rep :
-    plain_for tb (registered root r) argv = true ->
+    plain_for tb (registered_gen root r) argv = true ->
     resolve_gen fuel tb argv root d = Ok r -> final_gen tb argv root r = Ok (v, rep) ->
     rep = chosen_of (sg_info_dc root r)
     /\ exists lp soft, sp_dc its root SType d = Some (v, rep, lp, soft).
@@ -1053,11 +1085,11 @@ Proof. induction s as [|a r IH]; cbn; [reflexivity | now rewrite Ascii.eqb_refl,
 
 Theorem foreign_rejected tb argv root r o v :
   In (o, v) argv ->
-  (forall e, In e tb -> prefixb o (fst e) = true -> ~ In (snd e) (registered root r)) ->
+  (forall e, In e tb -> prefixb o (fst e) = true -> ~ In (snd e) (registered_gen root r)) ->
   final_gen tb argv root r = Err (Exit 2).
 Proof.
-  intros Ht Hf. unfold final_gen, final.
-  set (es := restrict tb (registered root r)).
+  intros Ht Hf. unfold final_gen, final. fold (registered_gen root r).
+  set (es := restrict tb (registered_gen root r)).
   assert (X : classify main_abbrev_gen es o = None).
   { assert (N : forall e, In e es -> prefixb o (fst e) = false).
     { intros e He. destruct (prefixb o (fst e)) eqn:P; [|reflexivity]. exfalso.
@@ -1188,7 +1220,7 @@ Definition W_FX_OUT : val * list (path * string) := Eval vm_compute in or_out (f
 Lemma foreign_exact_refuted :
   exists tb argv root d fuel r o v q x,
     declared_dc d = true /\ wf_dc d = true /\ str_nodupb (map fst tb) = true /\ depth_dc d <= fuel /\
-    resolve_gen fuel tb argv root d = Ok r /\ In (o, v) argv /\ exact tb o = Some q /\ ~ In q (registered root r) /\
+    resolve_gen fuel tb argv root d = Ok r /\ In (o, v) argv /\ exact tb o = Some q /\ ~ In q (registered_gen root r) /\
     final_gen tb argv root r = Ok x.
 Proof.
   exists W_TB, W_FX_ARGV, ["c"], W_TREE, 1, W_FX_R, "--lr", "5", ["c"; "model"; "lr"], W_FX_OUT.
